@@ -243,6 +243,9 @@ func (w *c24World) snapshot() (map[string]string, error) {
 			out[fmt.Sprintf("endoffset/%s/%d", name, p.Partition)] = fmt.Sprintf("%d %v", off, err)
 		}
 		if cfg, err := w.store.FetchTopicConfig(ctx, name); err == nil {
+			// a config that was never stored is synthesised on every read with
+			// CreatedAt = now (second resolution): not state, must not reach the snapshot
+			cfg.CreatedAt = ""
 			b, _ := proto.MarshalOptions{Deterministic: true}.Marshal(cfg)
 			out["config/"+name] = hex.EncodeToString(b)
 		} else {
